@@ -22,6 +22,13 @@ G  per batch the harness generates a real Lua echo module (fragments embedded as
    x the frame that is read (own / parent / one made by frame:newChild) x depth 0..2 (per case one wrapper
    template forwarding the same shape).  Every read must be a view of the one argument map TLC gives (HView):
    the enumerations yield exactly the map as a SET (their order is not specified), ipairs stops at the first hole.
+   Refs family (round 8): the text handed to preprocess / expandTemplate / callParserFunction is built in Lua and holds
+   ARGUMENT REFERENCES {{{n}}} / {{{n|d}}} (bare, as argument of a call, inside #if, in a default) whose name is an
+   argument of the enclosing template call and of the #invoke / of the enclosing call only / of the #invoke only / of
+   neither x depth 0..2 x (from wikitext | through frame:expandTemplate) x the wrapper call's first argument as written on
+   the page (plain | itself a reference, which a page leaves as written) x (arguments read before | after the API calls).
+   TLC gives the expansion in the PAGE context (the expectation), and for the report the same text resolved against the
+   #invoke's own / the enclosing call's arguments and with the Lua strings taken as plain text.
 """
 from __future__ import annotations
 
@@ -71,6 +78,30 @@ function p.%(fn)s(frame)
     .. "\29"
 end
 """
+
+# family "refs": the text is a Lua long string; the arguments are dumped before / after the API calls
+FN_REFS = {"args-first": r"""
+function p.%(fn)s(frame)
+  local parent = frame:getParent()
+  local t = %(frag)s
+  local a, pa = dump(frame.args), (parent and dump(parent.args) or "")
+  return "\29A" .. a .. "\29T" .. (parent and parent:getTitle() or "\31nil") .. "\29P" .. pa
+    .. "\29R" .. frame:preprocess(t)
+    .. "\29E" .. frame:expandTemplate{title = "T1", args = {t, x = t}}
+    .. "\29F" .. frame:callParserFunction("#if", t, t, "n")
+    .. "\29"
+end
+""", "api-first": r"""
+function p.%(fn)s(frame)
+  local parent = frame:getParent()
+  local t = %(frag)s
+  local r = frame:preprocess(t)
+  local e = frame:expandTemplate{title = "T1", args = {t, x = t}}
+  local f = frame:callParserFunction("#if", t, t, "n")
+  return "\29A" .. dump(frame.args) .. "\29T" .. (parent and parent:getTitle() or "\31nil") .. "\29P" .. (parent and dump(parent.args) or "")
+    .. "\29R" .. r .. "\29E" .. e .. "\29F" .. f .. "\29"
+end
+"""}
 
 # the readers of the hole family; probes (HN, HS, HC) and the orders (one function h<j> per order) come from TLC's
 # HOLES line.  Loops over the probe lists are numeric on purpose (they must not depend on the ipairs under test).
@@ -241,7 +272,9 @@ def chunk_fn(chunk):
             luastub.install(ctx)
             src = PRELUDE
             for idx, c in chunk:
-                if c["fam"] != "holes":
+                if c["fam"] == "refs":
+                    src += FN_REFS[c["order"]] % {"fn": f"r{idx}", "frag": lua_long(tr.render(c["frag"]))}
+                elif c["fam"] != "holes":
                     src += FN % {"fn": f"f{idx}", "frag": lua_long(tr.render(c["frag"])), "s1": json.dumps(tr.text(c["s1"])), "s2": json.dumps(tr.text(c["s2"]))}
             src += holes_lua(_G["holes"])
             src += "return p\n"
@@ -250,7 +283,12 @@ def chunk_fn(chunk):
             # one forwarding template per route: its body calls the wrapper under that spelling
             w2 = {}
             hpages = {}
+            refs = _G["refs"]
+            ctx.add_page("Template:Rw1", 10, body="<" + tr.render_item({"k": "inv", "fn": "{{{f}}}", "args": refs["inv"]}) + ">")
+            ctx.add_page("Template:Rw2", 10, body=tr.render_item({"k": "c", "name": "Rw1", "args": refs["fwd2"]}))
             for idx, c in chunk:
+                if c["fam"] == "refs":
+                    continue
                 if c["fam"] == "holes":
                     hpages[idx], tpls = hole_pages(idx, c)
                     for title, body in tpls:
@@ -262,6 +300,9 @@ def chunk_fn(chunk):
                     ctx.add_page("Template:" + w2[sp], 10, body=W2 % sp)
             ctx.db_conn.commit()
             for idx, c in chunk:
+                if c["fam"] == "refs":
+                    out.append(run_refs(ctx, idx, c))
+                    continue
                 if c["fam"] == "holes":
                     ob = {"idx": idx, "page": hpages[idx]}
                     try:
@@ -441,9 +482,148 @@ def judge_holes(o: Outcome, c, e, ob):
     o.shape(("holes", common.json_key(c["vec"]), c["depth"], tuple(c["reads"])))
 
 
+def refs_page(idx, c) -> str:
+    """the page of one case of the refs family, from the argument vectors TLC gives (wrap, inv0)"""
+    fn = f"r{idx}"
+    wrap = [({**a, "val": [tr.T([fn])]} if a["named"] and tr.render(a["key"]) == "f" else a) for a in c["wrap"]]
+    if c["depth"] == 0:
+        return tr.render_item({"k": "inv", "fn": fn, "args": c["inv0"]})
+    outer = "Rw1" if c["depth"] == 1 else "Rw2"
+    if c["via"]:
+        return tr.render_item({"k": "inv", "fn": "via", "args": wrap + [{"named": True, "key": [tr.T(["t"])], "val": [tr.T([outer])]}]})
+    return tr.render_item({"k": "c", "name": outer, "args": wrap})
+
+
+def run_refs(ctx, idx, c):
+    page = refs_page(idx, c)
+    ob = {"idx": idx, "page": page}
+    try:
+        ctx.start_page("Pg")
+        ob["raw"] = ctx.expand(page)
+        # metamorphic: the same text / the equivalent calls expanded on the page itself
+        t = tr.render(c["frag"])
+        ctx.start_page("Pg")
+        ob["m_pre"] = ctx.expand(t)
+        ob["m_et"] = ctx.expand("{{T1|1=" + t + "|x=" + t + "}}")
+        ob["m_pf"] = ctx.expand("{{#if:" + t + "|" + t + "|n}}")
+    except Exception as e:  # noqa: BLE001
+        ob["exc"] = repr(e)
+    return ob
+
+
+def ref_names(content):
+    """names of the argument references of a content, in order of appearance"""
+    out = []
+    for it in content:
+        if it["k"] == "p":
+            out.append(tr.text(it["name"]).strip())
+            out += ref_names(it["def"])
+        elif it["k"] == "c":
+            for a in it["args"]:
+                out += ref_names(a["key"]) + ref_names(a["val"])
+        else:
+            for f in ("c", "y", "n", "a", "b"):
+                if isinstance(it.get(f), list):
+                    out += ref_names(it[f])
+    return list(dict.fromkeys(out))
+
+
+def judge_refs(o: Outcome, c, e, ob):
+    o.evaluations += 1
+    frag = tr.render(c["frag"])
+    if tr.text(e["written"]) != frag:
+        raise RuntimeError(f"Gen_LuaFrame!Written and the renderer disagree: {tr.text(e['written'])!r} / {frag!r}")
+    case = {"page": ob["page"], "family": "refs", "depth": c["depth"], "text_built_in_lua": frag, "order": c["order"]}
+    wrapcall = None
+    if c["depth"] > 0:
+        wrapcall = tr.render_item({"k": "c", "name": "Rw1", "args": e["wrap"]}).replace("|f=F", "")
+        case["enclosing_template_called_with"] = {str(k): v for k, v in amap(e["pargs"]).items() if k != "f"}
+        case["invoke_in_wrapper"] = tr.render_item({"k": "inv", "fn": "f", "args": _G["refs"]["inv"]})
+        case["through_expandTemplate"] = c["via"]
+    if "exc" in ob:
+        o.violation({**case, "exception": ob["exc"]}, f"expand() raised {ob['exc']}", cls="exception")
+        return
+    pre, post = ("<", ">") if c["depth"] > 0 else ("", "")
+    parts = ob["raw"].split(SEP)
+    if len(parts) != 8 or parts[0] != pre or parts[7] != post or [p[:1] for p in parts[1:7]] != list("ATPREF"):
+        o.violation({**case, "got": ob["raw"][:400]}, "the string returned by the module does not replace the #invoke call verbatim", cls="envelope")
+        return
+    got = {p[0]: p[1:] for p in parts[1:7]}
+    stats = _G.setdefault("rstats", {"api_results": 0, "lua_strings_taken_as_plain_text": 0, "texts_where_the_enclosing_arguments_would_show": 0})
+    names = ref_names(c["frag"])
+    own, par = amap(e["args"]), (amap(e["pargs"]) if e["hasParent"] else {})
+    where = f"wrapper depth {c['depth']}" + (", wrapper reached through frame:expandTemplate" if c["via"] else "")
+
+    def leak(reading):
+        """the sentence naming the problem when the result is the text resolved against the enclosing call's arguments"""
+        hit = [n for n in names if key_of([n]) in par]
+        return (f": the argument reference(s) {', '.join('{{{' + n + '}}}' for n in hit)} in the text were resolved against the arguments of the ENCLOSING "
+                f"TEMPLATE CALL ({ {str(k): v for k, v in par.items() if k != 'f'} }); a page has no arguments - there a reference takes its default or stays as written"
+                f" ({reading!r}); {where}")
+
+    # ---- the three entry points
+    if tr.text(e["preParent"]) != tr.text(e["pre"]):
+        stats["texts_where_the_enclosing_arguments_would_show"] += 1
+    api = [("frame:preprocess", f"frame:preprocess({frag!r})", got["R"], e["pre"], None, e["preOwn"], e["preParent"], ob["m_pre"],
+            "expanding the same text in the calling page context"),
+           ("frame:expandTemplate", f"frame:expandTemplate{{title = 'T1', args = {{{frag!r}, x = {frag!r}}}}}", got["E"], e["et"], e["etLit"], None, e["etParent"], ob["m_et"],
+            "expanding the equivalent call {{T1|1=" + frag + "|x=" + frag + "}}"),
+           ("frame:callParserFunction", f"frame:callParserFunction('#if', {frag!r}, {frag!r}, 'n')", got["F"], e["pf"], e["pfLit"], None, e["pfParent"], ob["m_pf"],
+            "expanding the equivalent call {{#if:" + frag + "|" + frag + "|n}}")]
+    for what, expr, g, x, lit, ownr, parr, meta, equiv in api:
+        stats["api_results"] += 1
+        x, parr = tr.text(x), tr.text(parr)
+        if g == x:
+            continue
+        det = {**case, "what": what, "got": g, "specification": x, "same_wikitext_expanded_on_page": meta}
+        if lit is not None and g == tr.text(lit):
+            # MediaWiki hands the Lua strings of expandTemplate / callParserFunction on as plain text (they are not
+            # preprocessed): a result built from the text as written is no contradiction of the equivalence
+            stats["lua_strings_taken_as_plain_text"] += 1
+            continue
+        if g == meta:
+            # the relation of the statement holds on the real code; the page expansion itself differs from the reference (C04's subject)
+            o.note_drift({**det, "note": "equals the real expansion on the page, which differs from the transclusion reference"})
+            continue
+        if ownr is not None and g == tr.text(ownr):
+            # MediaWiki's frame:preprocess resolves references against the #invoke's own arguments; the statement says
+            # page context.  Not what the library does today; reported as drift, not as a contradiction (also where the
+            # enclosing call's arguments would give the same text: the other names tell the two apart)
+            o.note_drift({**det, "note": "equals the text resolved against the #invoke's own arguments (MediaWiki's reading of frame:preprocess)"})
+            continue
+        why = f"{expr} returned {g!r}, but {equiv} gives {x!r}"
+        if g == parr and c["depth"] > 0:
+            why += leak(x)
+            cls = what + "/resolved against the enclosing call's arguments"
+        else:
+            cls = what + "/refs"
+        o.violation(det, why, cls=cls)
+    # ---- the frames: arguments of the #invoke, title and arguments of the enclosing template
+    checks = [("frame.args", parse_dump(got["A"]), own, "the #invoke call's arguments after expansion"),
+              ("parent title", got["T"], conc(e["ptitle"]) if e["hasParent"] else US + "nil", "the enclosing template's title"),
+              ("parent args", parse_dump(got["P"]), {**par, "f": f"r{ob['idx']}"} if e["hasParent"] else {}, "the arguments of the enclosing template call")]
+    for what, g, x, meaning in checks:
+        if g == x:
+            continue
+        why = f"{what} seen by Lua is {g!r}; {meaning} are {x!r}" if what != "parent title" else f"frame:getParent():getTitle() is {g!r}; {meaning} is {x!r}"
+        cls = what + "/refs"
+        if isinstance(x, dict) and isinstance(g, dict):
+            leaked = tr.text(e["a1Parent"]) if what == "parent args" else "I" + tr.text(e["a1Parent"])
+            moved = [k for k in x if "{{{" in x[k] and k in g and g[k] != x[k] and g[k] == leaked]
+            if moved and c["depth"] > 0:
+                why += (f": the value of {moved!r} is an argument reference that the page leaves as written ({wrapcall} written on a page - a page has no arguments); "
+                        f"Lua sees it resolved against the arguments of the enclosing template call; {where}")
+                cls = what + "/reference written on the page resolved against the enclosing call's arguments"
+        o.violation({**case, "what": what, "got": g if not isinstance(g, dict) else {str(k): v for k, v in g.items()},
+                     "specification": x if not isinstance(x, dict) else {str(k): v for k, v in x.items()}}, why, cls=cls)
+    o.shape(("refs", common.json_key(c["frag"]), common.json_key(c["wa1"]), c["depth"], c["via"], c["order"]))
+
+
 def judge(o: Outcome, c, e, ob):
     if c["fam"] == "holes":
         return judge_holes(o, c, e, ob)
+    if c["fam"] == "refs":
+        return judge_refs(o, c, e, ob)
     o.evaluations += 1
     case = {"page": ob["page"], "fragment": tr.render(c["frag"]), "lua_strings": [tr.text(c["s1"]), tr.text(c["s2"])], "depth": c["depth"]}
     if c["depth"] > 0:
@@ -548,6 +728,13 @@ def judge(o: Outcome, c, e, ob):
     o.shape((common.json_key(c["a1"]), common.json_key(c["a2"]), c["depth"], common.json_key(c["frag"]), written(c["route"]), c["via"]))
 
 
+def with_pages(c):
+    """the case as the worker needs it (refs family: plus the argument vectors of the page, which TLC prints with the expectation)"""
+    if c["case"]["fam"] == "refs":
+        return {**c["case"], "wrap": c["exp"]["wrap"], "inv0": c["exp"]["inv0"]}
+    return c["case"]
+
+
 def run(tier: str) -> int:
     o = Outcome(PID, tier)
     o.rule = ("each (wrapper depth, positional value, named value, fragment, Lua strings) of Gen_LuaFrame is one case of family 'args' "
@@ -555,9 +742,14 @@ def run(tier: str) -> int:
               "depth 1..2, from wikitext | through frame:expandTemplate, value) is one case of family 'route'; "
               "distinct by (values, depth, fragment, route, via); each (argument vector of 1..3 (thorough: ..4) positional / numeric-named / "
               "string-named arguments, depth 0..2, order of reads) is one case of family 'holes', every read of the own / parent / child frame compared "
-              "with TLC's view of the one argument map; distinct by (vector, depth, order)")
+              "with TLC's view of the one argument map; distinct by (vector, depth, order); each (text with argument references built in Lua, "
+              "first argument of the wrapper call as written, depth 0..2, from wikitext | through frame:expandTemplate, arguments read before | after "
+              "the API calls) is one case of family 'refs': preprocess / expandTemplate / callParserFunction of the text compared with TLC's expansion "
+              "in the page context, frame / parent arguments with TLC's bindings; distinct by all five")
     o.assumptions = ["Lua runs with pure-Lua stand-ins for ustring/libraryUtil", "callParserFunction/expandTemplate receive plain strings",
                      "the equivalent call of expandTemplate{title,args} is the all-named call {{title|k=v|...}}",
+                     "a Lua string with markup handed to expandTemplate / callParserFunction may also be taken as plain text (MediaWiki does not preprocess it): "
+                     "both the page-context expansion of the equivalent call and the result with the text as written are accepted, nothing else",
                      "the enclosing template of an #invoke is the page whose body is expanded (for a redirect: its target), titles as stored by add_page"]
     uni = "T" if tier == "thorough" else "Q"
     r = tlc("Gen_LuaFrame", f"Gen_LuaFrame_{uni}.cfg", workers=1, timeout=3000)
@@ -566,7 +758,9 @@ def run(tier: str) -> int:
     store = r.tagged("STORE")[0]
     _G["adds"] = store["adds"]
     _G["holes"] = r.tagged("HOLES")[0]
+    _G["refs"] = r.tagged("REFS")[0]
     _G.pop("hstats", None)
+    _G.pop("rstats", None)
     o.extra["routes"] = {"reaching_a_wrapper": store["routes"], "going_nowhere_not_run": store["unreachable"],
                          "route_cases": sum(1 for c in cases if c["case"]["fam"] == "route"),
                          "laws_checked_by_TLC": ["TitleLaws (code path == reference on every route, supplier is a stored non-redirect page)",
@@ -577,7 +771,7 @@ def run(tier: str) -> int:
            "St": [{"w": "plain", "c": [tr.T(["*"]), {"k": "p", "name": ["1"], "hasDef": False, "def": []}]}],
            "((": [{"w": "plain", "c": [tr.T(["{{"])]}], "))": [{"w": "plain", "c": [tr.T(["}}"])]}]}
     _G["lib"] = lib
-    items = [(i, c["case"]) for i, c in enumerate(cases)]
+    items = [(i, with_pages(c)) for i, c in enumerate(cases)]
     res = pmap(chunk_fn, items, chunk=max(20, len(items) // 64))
     for ob in res:
         judge(o, cases[ob["idx"]]["case"], cases[ob["idx"]]["exp"], ob)
@@ -585,6 +779,10 @@ def run(tier: str) -> int:
     o.extra["holes"] = {"shapes": _G["holes"]["shapes"], "cases": _G["holes"]["cases"], "orders_of_reads": _G["holes"]["orders"],
                         "laws_checked_by_TLC": ["HolesDepthIndependent", "HolesAgreeWithArgViews (ArgViews!ArgMap, ViewLua)", "HolesUniverseLaws (non-vacuity)"],
                         **_G.get("hstats", {})}
+    o.extra["refs"] = {"cases": _G["refs"]["cases"], "texts": _G["refs"]["frags"], "names_of_references": [tr.text(n) for n in _G["refs"]["names"]],
+                       "first_argument_of_the_wrapper_call": [tr.render(w) for w in _G["refs"]["wa1"]],
+                       "laws_checked_by_TLC": ["RefsDepthIndependent", "RefsUniverseLaws (the page context, the #invoke's and the enclosing call's arguments give three different texts for every API; non-vacuity)"],
+                       **_G.get("rstats", {})}
     o.exhaustive = True
     ob0 = res[len(res) // 2]
     o.sample({"page": ob0["page"], "returned": ob0.get("raw", "")[:300]})
@@ -601,9 +799,15 @@ def selftest() -> int:
     r = tlc("Gen_LuaFrame", "Gen_LuaFrame_Q.cfg", workers=1)
     _G["adds"] = r.tagged("STORE")[0]["adds"]
     _G["holes"] = r.tagged("HOLES")[0]
+    _G["refs"] = r.tagged("REFS")[0]
+    reffed = [c for c in r.cases if c["case"]["fam"] == "refs"]
     routed = [c for c in r.cases if c["case"]["fam"] == "route"]
     holed = [c for c in r.cases if c["case"]["fam"] == "holes"]
-    cases = [c for c in r.cases if c["case"]["fam"] == "args"][:40] + routed[:: max(1, len(routed) // 40)] + holed[:: max(1, len(holed) // 60)]
+    cases = [c for c in r.cases if c["case"]["fam"] == "args"][:40] + routed[:: max(1, len(routed) // 40)] + holed[:: max(1, len(holed) // 60)] + reffed[::9]
+    # a reference written on the page as the wrapper call's first argument, replaced in the expected parent arguments by its
+    # resolution against the enclosing call's arguments, must be rejected
+    rf = next(c for c in cases if c["case"]["fam"] == "refs" and c["case"]["depth"] == 2 and c["exp"]["a1Parent"] != c["exp"]["pargs"][0]["val"])
+    rf["exp"]["pargs"][0]["val"] = rf["exp"]["a1Parent"]
     # an argument behind a hole dropped from the map the enumerations are compared with must be rejected as well
     h = next(c for c in cases if c["case"]["fam"] == "holes" and c["case"]["depth"] == 0 and len(c["exp"]["own"]["map"]) == 3
              and any(b["int"] and b["key"] == ["3"] for b in c["exp"]["own"]["map"]) and len(c["exp"]["own"]["seq"]) == 1)
@@ -617,9 +821,10 @@ def selftest() -> int:
                                               {"k": "p", "name": ["x"], "hasDef": True, "def": [tr.T(["d"])]}, tr.T([")"])]}],
                  "Sp": [{"w": "plain", "c": [tr.T(["SP", "v", "SP"])]}], "St": [{"w": "plain", "c": [tr.T(["*"]), {"k": "p", "name": ["1"], "hasDef": False, "def": []}]}],
                  "((": [{"w": "plain", "c": [tr.T(["{{"])]}], "))": [{"w": "plain", "c": [tr.T(["}}"])]}]}
-    for ob in chunk_fn([(i, c["case"]) for i, c in enumerate(cases)]):
+    for ob in chunk_fn([(i, with_pages(c)) for i, c in enumerate(cases)]):
         judge(o, cases[ob["idx"]]["case"], cases[ob["idx"]]["exp"], ob)
-    print("violations after corrupting three expectations (preprocess text, parent title of a redirect route, argument map of a vector with a hole):", len(o.violations))
+    print("violations after corrupting four expectations (preprocess text, parent title of a redirect route, argument map of a vector with a hole, "
+          "a reference written on the page in the parent arguments replaced by its resolution against the enclosing call):", len(o.violations))
     for v in o.violations:
         print("  ", str(v.get("why", v))[:200])
-    return 0 if len(o.violations) == 3 else 1
+    return 0 if len(o.violations) == 4 else 1
